@@ -268,6 +268,18 @@ fn finding_class(c: &Case, codes: &[String]) -> Option<&'static str> {
             }
         }
     }
+    // a fragment (or operation) named like a type the generated code itself mentions unqualified: `struct String { name: String }`
+    const USED_UNQUALIFIED: [&str; 8] = ["String", "Vec", "Option", "Box", "Boolean", "Float", "Int", "ID"];
+    if (has("E0072") || has("E0428") || has("E0308") || has("E0107")) && c.doc.frags.iter().any(|f| USED_UNQUALIFIED.contains(&f.name.as_str())) {
+        return Some("fragment-named-like-a-type-the-generated-code-uses");
+    }
+    // two inline fragments on ONE possible type at one position that share a response key: the variant struct declares the member twice
+    if has("E0124") && all_sets(&|set| {
+        let inl: Vec<(&String, Vec<String>)> = set.iter().filter_map(|s| if let ASel::Inline { on, sub } = s { Some((on, keys_of_set(sub))) } else { None }).collect();
+        inl.iter().enumerate().any(|(i, (on, ks))| inl.iter().skip(i + 1).any(|(on2, ks2)| on == on2 && ks.iter().any(|k| ks2.contains(k))))
+    }) {
+        return Some("two-inline-fragments-on-one-type-share-a-key");
+    }
     if has("E0428") && !c.opts.normalization_rust && c.doc.ops.iter().any(|o| { use heck::ToSnakeCase; o.name.to_snake_case() == o.name }) {
         // `struct list_items;` next to `mod list_items`: both live in the type namespace
         return Some("operation-name-equals-its-module-name");
@@ -360,6 +372,9 @@ fn corpus() -> Vec<(ASchema, ADoc, Opts, &'static str)> {
         (schema.clone(), doc(vec![], vec![fld("a", vec![fld("friend", vec![fld("name", vec![])])]), fld("aB", vec![fld("name", vec![])]), ASel::Field { alias: Some("aFriend".into()), name: "dog".into(), sub: vec![fld("name", vec![])] }], vec![]), Opts::default(), "selection-paths-concatenate-to-one-type-name"),
         (schema.clone(), doc(vec![], vec![fld("animal", vec![ASel::Typename, fld("on", vec![]), ASel::Inline { on: "Dog".into(), sub: vec![fld("name", vec![])] }])], vec![]), Opts::default(), "field-named-on-next-to-variant-selection"),
         (schema.clone(), ADoc { ops: vec![AOp { kind: "query", name: "list_items".into(), vars: vec![], sels: vec![fld("echo", vec![])] }], frags: vec![] }, Opts::default(), "operation-name-equals-its-module-name"),
+        (schema.clone(), doc(vec![], vec![fld("dog", vec![fld("fooBar", vec![]), ASel::Spread { name: "String".into() }])], vec![AFrag { name: "String".into(), on: "Dog".into(), sels: vec![fld("name", vec![])] }]), Opts::default(), "fragment-named-like-a-type-the-generated-code-uses"),
+        (schema.clone(), doc(vec![], vec![fld("animal", vec![ASel::Typename, ASel::Inline { on: "Dog".into(), sub: vec![fld("name", vec![])] }, ASel::Inline { on: "Dog".into(), sub: vec![fld("name", vec![]), fld("fooBar", vec![])] }])], vec![]), Opts::default(), "two-inline-fragments-on-one-type-share-a-key"),
+        (schema.clone(), doc(vec![], vec![fld("animal", vec![ASel::Typename, ASel::Inline { on: "Dog".into(), sub: vec![fld("name", vec![])] }, ASel::Inline { on: "Dog".into(), sub: vec![fld("fooBar", vec![])] }])], vec![]), Opts::default(), ""),
         (collide_schema(vec!["self", "Self", "blue"]), enum_doc_c.clone(), both("Debug", "Debug", true), "enum-values-equal-after-normalization"),
         (collide_schema(vec!["self", "Self", "blue"]), enum_doc_c.clone(), both("Debug", "Debug", false), ""),
         (collide_schema(vec!["Other", "blue"]), enum_doc_c.clone(), both("Debug", "Debug", false), ""),
